@@ -275,6 +275,14 @@ impl PacketSender {
     }
 }
 
+#[cfg(uflow_verif)]
+impl PacketSender {
+    pub fn verif_dump(&self) -> String {
+        format!("q={} base={} next={} alloc={} total={}",
+                self.packet_send_queue.len(), self.base_id, self.next_id, self.alloc, self.total_size)
+    }
+}
+
 #[cfg(test)]
 mod tests {
     use super::*;
